@@ -49,6 +49,13 @@ class C06(HistProp):
             sc.append((['arr 0 0 0', 'int 1 0 8 1'] + ['push 0 1'] * n, 'set 0 %d 1' % n))
             sc.append((['map 0 0 0', 'int 1 0 8 1', 'str 2 1 6b'] + ['madd 0 2 1'] * n, 'madd 0 2 1'))
             sc.append((['stri 0 1', 'str 1 1 6b'] + ['chunk 0 1'] * n, 'chunk 0 1'))
+            sc.append((['stri 0 0', 'str 1 0 6b'] + ['chunk 0 1'] * n, 'chunk 0 1'))
+        # load and copy of indefinite containers / chunked strings of 3, 4, 5 and 9 members: the second, third and fourth growth of the slot array happen inside the operation
+        for n in (3, 4, 5, 9):
+            for e in (b'\x9f' + b'\x01' * n + b'\xff', b'\xbf' + b'\x01\x02' * n + b'\xff', b'\x5f' + b'\x41\x61' * n + b'\xff', b'\x7f' + b'\x61\x61' * n + b'\xff',
+                      b'\x81\xbf' + b'\x01\x5f\x41\x61\x41\x62\x41\x63\xff' * n + b'\xff'):
+                sc.append(([], 'load 0 ' + gen.hexs(e)))
+                sc.append((['load 0 ' + gen.hexs(e)], 'copy 1 0'))
         sc.append((['arr 0 1 2', 'int 1 0 8 1', 'push 0 1'], 'push 0 1'))
         # copy of trees (via load) and of shared structures
         ts = [t for t in trees.corpus('quick', rng, assigned_only=True) if 2 <= len(trees.enc(t)) <= 40]
@@ -114,6 +121,9 @@ class C06(HistProp):
         word = res.split(' ')[0]
         if 'live=0' not in outs[-1]:
             return (len(lines) - 1, 'blocks still allocated after everything was released (%s under %s): %s' % (lines[opi], lines[fi], outs[-1]))
+        if word not in FAIL_WORDS:
+            # the schedule refuses a request the fault-free run of this operation makes (k < N): the operation cannot have completed without it
+            return (opi, '%s under %s: an allocator request was refused but the operation reported success (%s)' % (lines[opi], lines[fi], res[:80]))
         if word in FAIL_WORDS:
             s_before = strip_reqs(summary_of(prev)) if prev != 'reset' else ' | | live=0'
             s_after = strip_reqs(summary_of(res))
